@@ -295,3 +295,58 @@ fn verif_native_c04_macro_termination() {
     }
     assert!(ctx.op("d:45").is_ok(), "C04.N.macro.termination: a 45-deep acyclic chain instantiates");
 }
+
+//@n {"id":"C03.N.pipeline.text","props":["C03"],"tier":"quick","bound":"22 textual pipelines over addone/helmert with </> sugar, omit_fwd/omit_inv (suffix, infix, =true form), inv in prefix/infix/suffix position, one-step pipelines and one-step macro bodies; through Minimal; both directions; 2 tuples","text":"a step marked omit_fwd (or introduced by <) is skipped forward and executed inverse, omit_inv (or >) the opposite, also when it is the only step of a pipeline or of a macro body; inv anywhere in a step's definition exchanges its directions; counts report all tuples"}
+#[test]
+fn verif_native_c03_pipeline_text() {
+    let mut ctx = macro_ctx();
+    ctx.register_resource("my:shift", "> helmert x=5");
+    ctx.register_resource("my:back", "< helmert x=5");
+    // (definition, change of x forward, change of x inverse) -- computed from the property statement
+    let cases: [(&str, f64, f64); 22] = [
+        ("< helmert x=1", 0.0, -1.0),
+        ("> helmert x=1", 1.0, 0.0),
+        ("helmert x=1 omit_fwd | noop", 0.0, -1.0),
+        ("helmert x=1 omit_inv | noop", 1.0, 0.0),
+        ("addone | helmert x=2 omit_inv | addone", 4.0, -2.0),
+        ("addone | helmert x=2 omit_fwd | addone", 2.0, -4.0),
+        ("addone | omit_fwd helmert x=2 | addone", 2.0, -4.0),
+        ("addone | helmert omit_fwd x=2 | addone", 2.0, -4.0),
+        ("addone | helmert x=2 omit_fwd=true | addone", 2.0, -4.0),
+        ("addone < helmert x=2 | addone", 2.0, -4.0),
+        ("addone > helmert x=2 | addone", 4.0, -2.0),
+        ("addone > helmert x=2 > addone", 4.0, -1.0),
+        ("addone | inv helmert x=2 | addone", 0.0, 0.0),
+        ("addone | helmert inv x=2 | addone", 0.0, 0.0),
+        ("addone | helmert x=2 inv | addone", 0.0, 0.0),
+        ("addone | helmert x=2 inv omit_fwd | addone", 2.0, 0.0),
+        ("addone | helmert x=2 omit_inv inv | addone", 0.0, -2.0),
+        ("my:shift | noop", 5.0, 0.0),
+        ("my:back | noop", 0.0, -5.0),
+        ("addone | my:shift | addone", 7.0, -2.0),
+        ("addone | my:shift inv | addone", 2.0, 3.0),
+        ("addone | my:back inv | addone", -3.0, -2.0),
+    ];
+    let mut fails = Vec::new();
+    let mut ids = Vec::new();
+    let mut n = 0;
+    for (i, (def, f, b)) in cases.iter().enumerate() {
+        for (dir, delta) in [(Direction::Fwd, *f), (Direction::Inv, *b)] {
+            let d = format!("{dir:?}");
+            n += 1;
+            match run(&mut ctx, def, dir) {
+                Ok((cnt, v)) => {
+                    if v[0] != 10.0 + delta || v[1] != -1.0 + delta || cnt != 2 {
+                        ids.push(format!("{i}{}", &d[..1]));
+                        fails.push(format!("`{def}` {d}: x changes by {} (count {cnt}), expected {delta}", v[0] - 10.0));
+                    }
+                }
+                Err(e) => {
+                    ids.push(format!("{i}{}", &d[..1]));
+                    fails.push(format!("`{def}` {d}: error {e}"))
+                }
+            }
+        }
+    }
+    assert!(fails.is_empty(), "C03.N.pipeline.text: FAILSET{{{}}} {} of {} evaluations disagree, first: {:?}", ids.join(","), fails.len(), n, &fails[..fails.len().min(6)]);
+}
